@@ -18,8 +18,12 @@ FUNCTIONS = ["wannierberri.system.system_R.System_R.double_spin/set_spin_pairs",
 BOUNDS = dict(quick=dict(num_wann_scalar="1..2", R_sets="3..5 R-vectors; up / down / SOC R-sets different", data="symbolic complex X(-R)=X(R)^+ (dV_01 and overlap unconstrained)",
                          centres="symbolic", angles="theta, phi symbolic (half-angle unit-circle atoms) and the constants 0; units radians and degrees (symbolic degrees and the concrete pairs (30,180), (75,40))", alpha_soc="symbolic", k="symbolic: one free phase per R-vector",
                          derivatives="Xbar der <= 1"),
-              thorough=dict(num_wann_scalar="1..3", R_sets="up to 7 R-vectors", data="symbolic complex", centres="symbolic", angles="symbolic, radians and degrees (plus concrete degree pairs incl. (120,-60))", alpha_soc="symbolic", k="symbolic, 2 k-points",
-                            derivatives="Xbar der <= 2"))
+              thorough=dict(num_wann_scalar="1..6 (double_spin), 1..5 (no SOC), 1..4 (SOC assembly), 1..3 (set_soc_R)", R_sets="3..13 R-vectors; up / down / SOC R-sets all different",
+                            matrices="Ham alone, Ham+AA, and Ham, AA, BB, CC, OO, GG (0, 1, 2 cartesian indices) in the spin channels; SOC matrices dV_00, dV_11, dV_01, overlap",
+                            data="symbolic complex", centres="symbolic (concrete in set_soc_R)", angles="symbolic, radians and degrees in every accepted spelling (r, rad, Radians, RAD, d, deg, DEG, Degree, ...) "
+                            "plus concrete degree pairs incl. (120,-60)", alpha_soc="symbolic, 0, default", k="symbolic, 1..2 k-points", derivatives="Xbar der <= 2 (der <= 1 for num_wann_scalar >= 4, for the six-matrix sets at num_wann_scalar = 3 and in the SOC assembly at num_wann_scalar = 3)",
+                            set_soc_R="meshes 2x1x1, 1x2x1, 2x2x1, 2x1x2, 2x2x2, 1x1x1; Wannier gauge identity / phased permutation / phased plane rotation (different per k and spin); "
+                                      "irreducible k-point subsets with weights"))
 EXPLANATION = ("Spinless / spin-up / spin-down systems and the SOC matrices are symbolic object arrays on different R-vector sets; the real double_spin, SystemSOC.set_soc_axis, "
                "get_system_R and Data_K_soc.HH_K/Xbar run on them with symbolic quantisation angles (half-angle unit-circle atoms) and symbolic alpha_soc.  z3 decides the block identities "
                "H_doubled(k) = H(k) (x) 1_2, H_noSOC(k) = H_up(k) (+) H_down(k) on their own R-sets, H of get_system_R == Data_K_soc.HH_K == explicit sum over the SOC matrices, and the "
@@ -27,19 +31,20 @@ EXPLANATION = ("Spinless / spin-up / spin-down systems and the SOC matrices are 
 ASSUMPTIONS = ["dV_soc_wann_0_0 / dV_soc_wann_1_1 obey X(-R)=X(R)^+ (asserted by set_soc_R when they are produced)", "the SOC R-vector set is closed under inversion (set_Rvec produces such sets)",
                "SOC Rvectors carry the interlaced up/down centres as shifts (what set_soc_R does)"]
 OUTSIDE = ["numerical eigenvalues (np.linalg.eigh): the spectrum statements are claimed through the block structure of H(k), not through a diagonalisation",
-           "set_soc_R with a non-trivial Wannier gauge (v_matrix != 1), irreducible k-points with weights, meshes other than 2x1x1 and symbolic centres (the Wigner-Seitz construction needs numbers)", "the magnetic point group set by set_soc_axis when a cell is given (irrep.SpaceGroup)",
+           "set_soc_R: meshes with more than 2 points per direction (inexact DFT twiddles), symbolic gauge matrices and symbolic centres (the Wigner-Seitz construction needs numbers)", "the magnetic point group set by set_soc_axis when a cell is given (irrep.SpaceGroup)",
            "E_K_corners_* of Data_K_soc (property C33)", "sizes above the stated bounds"]
 STUBS = ["np.deg2rad / np.radians in the shadowed modules for a symbolic angle: the linear map x -> x*(pi/180) (numpy's own double constant), concrete angles go to the real numpy function",
-         "fourier.fft.execute_fft (as imported by rvectors) -> the DFT by definition with exact quarter-turn twiddles (set_soc_R cases)", "chk stand-ins (num_kpts, mp_grid, kpt_red, num_bands, v_matrix = 1) for set_soc_R",
+         "fourier.fft.execute_fft (as imported by rvectors) -> the DFT by definition with exact quarter-turn twiddles (set_soc_R cases)", "chk stand-ins (num_kpts, mp_grid, kpt_red, num_bands, concrete v_matrix) for set_soc_R",
          "grid stand-in with FFT=(1,1,1) for Data_K_R / Data_K_soc (k_list=...)", "UU_K = identity put into the Data_K cache (no eigh)"]
 
 LAT = np.array([[1.0, 0, 0], [0.25, 1.5, 0], [0, 0.5, 2.0]])
 MODS = [SR, RV, FF, UT, DKR, DK, SSOC, DKS, WSOC]
-CART = dict(Ham=(), AA=(3,), dV_soc_wann_0_0=(3,), dV_soc_wann_1_1=(3,), dV_soc_wann_0_1=(3,), overlap_up_down=())
+CART = dict(Ham=(), AA=(3,), BB=(3,), CC=(3,), OO=(3,), GG=(3, 3), dV_soc_wann_0_0=(3,), dV_soc_wann_1_1=(3,), dV_soc_wann_0_1=(3,), overlap_up_down=())
 RSETS = dict(A=[(0, 0, 0), (1, 0, 0), (-1, 0, 0)],
              B=[(0, 0, 0), (0, 1, 0), (0, -1, 0), (1, 0, 0), (-1, 0, 0)],
              C=[(0, 1, -1), (0, 0, 0), (0, -1, 1)],
-             E=[(0, 0, 0), (1, 1, 0), (-1, -1, 0), (0, 0, 1), (0, 0, -1), (1, 0, 0), (-1, 0, 0)])
+             E=[(0, 0, 0), (1, 1, 0), (-1, -1, 0), (0, 0, 1), (0, 0, -1), (1, 0, 0), (-1, 0, 0)],
+             F=[(0, 0, 0), (1, 0, 0), (-1, 0, 0), (0, 1, 0), (0, -1, 0), (0, 0, 1), (0, 0, -1), (1, 1, 0), (-1, -1, 0), (1, -1, 1), (-1, 1, -1), (2, 0, 0), (-2, 0, 0)])
 GRID = SimpleNamespace(FFT=np.array([1, 1, 1]))
 PAULI = np.array([[[0, 1], [1, 0]], [[0, -1j], [1j, 0]], [[1, 0], [0, -1]]])   # harness's own sigma_c[s,t]
 EPS = np.zeros((3, 3, 3))
@@ -321,7 +326,25 @@ def ob_pauli(rec, spec, A, k, xp):
 # ------------------------------------------------------------------------------------------------------------
 # ------------------------------------------------------------------------------------------------------------
 # entry point set_soc_R: SOC matrices given on a k-mesh (SOC object + gauge matrices), transformed to R by the real q_to_R
-MESH = dict(mp=np.array([2, 1, 1]), kpt=np.array([[0.0, 0, 0], [0.5, 0, 0]]))
+def mesh_of(spec):
+    """Monkhorst-Pack mesh with 1 or 2 points per direction (all DFT twiddles are +-1)"""
+    mp = np.array(spec.get("mesh", [2, 1, 1]))
+    kpt = np.array([[i / mp[0], j / mp[1], l / mp[2]] for i in range(mp[0]) for j in range(mp[1]) for l in range(mp[2])])
+    return mp, kpt
+
+
+def gauge(spec, ik, spin, nb):
+    """concrete Wannier gauge matrix v(k) of a spin channel: identity, a phased cyclic permutation, or a phased plane rotation (cos, sin = 0.6, 0.8)"""
+    g = spec.get("gauge")
+    if not g:
+        return np.eye(nb, dtype=complex)
+    ph = np.diag([1j ** ((a + ik + spin) % 4) for a in range(nb)])
+    if g == "perm" or nb == 1:
+        return np.roll(np.eye(nb), (ik + spin) % nb, axis=1) @ ph
+    v = np.eye(nb, dtype=complex)
+    c, sn = (0.6, 0.8) if (ik + spin) % 2 == 0 else (0.8, -0.6)
+    v[0, 0], v[0, 1], v[1, 0], v[1, 1] = c, -sn, sn, c
+    return v @ ph
 
 
 def centres(nb, ud):
@@ -347,7 +370,7 @@ def exact_fft(inp, axes, inverse=False, destroy=True, fftlib="fftw"):
 
 
 def arrays_socR(spec):
-    nb, ns, NK = spec["nb"], spec["nspin"], len(MESH["kpt"])
+    nb, ns, NK = spec["nb"], spec["nspin"], len(mesh_of(spec)[1])
     A = {}
     for ud, tag in enumerate(("u", "d")[:ns]):
         A[f"{tag}X_Ham"] = hermR(tag + "Ham", RSETS[spec["Rud"][ud]], nb)
@@ -366,15 +389,17 @@ def arrays_socR(spec):
 
 
 def mk_socR(spec, A):
-    nb, ns, NK = spec["nb"], spec["nspin"], len(MESH["kpt"])
+    mp, kpt = mesh_of(spec)
+    nb, ns, NK = spec["nb"], spec["nspin"], len(kpt)
     sub = [mk_system(nb, RSETS[spec["Rud"][ud]], centres(nb, ud), {"Ham": A[f"{tag}X_Ham"]}) for ud, tag in enumerate(("u", "d")[:ns])]
     s = SSOC.SystemSOC(*sub, silent=True)
     s.wannier_centers_cart = np.stack([sub[0].wannier_centers_cart, sub[-1].wannier_centers_cart], axis=1).reshape(2 * nb, 3).astype(float)
     s.__dict__.pop("wannier_centers_red", None)
     soc = WSOC.SOC(data=[A["Q_dV"][ik] for ik in range(NK)], overlap=[A["Q_ov"][ik] for ik in range(NK)] if ns == 2 else None)
-    chks = [SimpleNamespace(num_kpts=NK, mp_grid=MESH["mp"].copy(), kpt_red=MESH["kpt"].copy(), num_bands=nb, num_wann=nb, v_matrix=[np.eye(nb, dtype=complex) for _ in range(NK)])
-            for _ in range(ns)]
-    return s, soc, dict(chk_up=chks[0], chk_down=chks[1] if ns == 2 else None)
+    chks = [SimpleNamespace(num_kpts=NK, mp_grid=mp.copy(), kpt_red=kpt.copy(), num_bands=nb, num_wann=nb, v_matrix=[gauge(spec, ik, sp_, nb) for ik in range(NK)])
+            for sp_ in range(ns)]
+    extra = dict(kptirr=np.array(spec["kptirr"][0]), weights_k=np.array(spec["kptirr"][1], dtype=float)) if spec.get("kptirr") else {}
+    return s, soc, dict(chk_up=chks[0], chk_down=chks[1] if ns == 2 else None, **extra)
 
 
 def soc_W(V, sig, asoc, ns, nb, iR, xp):
@@ -403,16 +428,20 @@ def ob_socR(rec, spec, A, k, xp):
     V = {(0, 0): s.get_R_mat("dV_soc_wann_0_0")}
     if ns == 2:
         V[(1, 1)], V[(0, 1)] = s.get_R_mat("dV_soc_wann_1_1"), s.get_R_mat("dV_soc_wann_0_1")
-    sign = lambda kq, r: (-1) ** int(round(2 * float(np.dot(kq, r))))           # exp(2 pi i kq.R) on the 2x1x1 mesh
+    sign = lambda kq, r: (-1) ** int(round(2 * float(np.dot(kq, r))))           # exp(2 pi i kq.R) on a mesh with 1 or 2 points per direction
+    mp, kpt = mesh_of(spec)
+    wk = {int(i): float(w) for i, w in zip(*spec["kptirr"])} if spec.get("kptirr") else {i: 1.0 for i in range(len(kpt))}       # weight of each mesh point (0: not given)
+    vdag = lambda iq, sp_: np.conj(gauge(spec, iq, sp_, nb).T)
     for (s_, t_), v in V.items():
-        for iq, kq in enumerate(MESH["kpt"]):
-            rec.eq(f"set_soc_R: sum_R e^(ikR) dV_{s_}{t_}(R) == dV_{s_}{t_}(k) at mesh point {iq} (identity gauge)", sum(sign(kq, r) * v[i] for i, r in enumerate(iR)),
-                   np.moveaxis(A["Q_dV"][iq, s_, t_], 0, -1), key="set_soc_R real-space SOC matrices do not reproduce the mesh data")
+        for iq, kq in enumerate(kpt):
+            want = wk.get(iq, 0.0) * xp.stack([vdag(iq, s_) @ A["Q_dV"][iq, s_, t_, c] @ gauge(spec, iq, t_, nb) for c in range(3)], axis=-1)
+            rec.eq(f"set_soc_R: sum_R e^(ikR) dV_{s_}{t_}(R) == w_k v_s^+ dV_{s_}{t_}(k) v_t at mesh point {iq}", sum(sign(kq, r) * v[i] for i, r in enumerate(iR)), want,
+                   key="set_soc_R real-space SOC matrices do not reproduce the mesh data")
     if ns == 2:
         ov = s.get_R_mat("overlap_up_down")
-        for iq, kq in enumerate(MESH["kpt"]):
-            rec.eq(f"set_soc_R: sum_R e^(ikR) overlap(R) == overlap(k) at mesh point {iq}", sum(sign(kq, r) * ov[i] for i, r in enumerate(iR)), A["Q_ov"][iq],
-                   key="set_soc_R real-space overlap does not reproduce the mesh data")
+        for iq, kq in enumerate(kpt):
+            rec.eq(f"set_soc_R: sum_R e^(ikR) overlap(R) == w_k v_up^+ overlap(k) v_down at mesh point {iq}", sum(sign(kq, r) * ov[i] for i, r in enumerate(iR)),
+                   wk.get(iq, 0.0) * (vdag(iq, 0) @ A["Q_ov"][iq] @ gauge(spec, iq, 1, nb)), key="set_soc_R real-space overlap does not reproduce the mesh data")
     sig = WSOC.SOC.get_pauli_rotated(theta=th, phi=ph)
     W = soc_W(V, sig, asoc, ns, nb, iR, xp)
     rec.eq("set_soc_R(alpha_soc=a): Ham_SOC(R) == a * sum_c dV_st(R)_c sigma'_c[s,t]  (SOC term scales with alpha_soc)", s.get_R_mat("Ham_SOC"), W,
@@ -462,7 +491,7 @@ def ob_deg(rec, spec, A, k, xp):
     td, pd, asoc = A["angles"]
     # concrete angles: cos/sin are double constants, identities hold to rounding -> tolerance shape (data in [-1,1]); symbolic angles: exact
     cmp = (lambda name, l, r_, key: rec.close(name + " (1e-9, |data|<=1)", l, r_, 1e-9, bound=1.0, key=key)) if spec.get("deg_angles") else (lambda name, l, r_, key: rec.eq(name, l, r_, key=key))
-    th, ph = xp.deg2rad(td), xp.deg2rad(pd)
+    th, ph = (td, pd) if spec["units"].lower().startswith("r") else (xp.deg2rad(td), xp.deg2rad(pd))        # the angle in radians that the spelling of `units` announces
     s = mk_soc(spec, A, axis=False)
     s.set_soc_axis(theta=td, phi=pd, alpha_soc=asoc, units=spec["units"])
     r = mk_soc(spec, A, axis=False)
@@ -542,11 +571,11 @@ def cases(tier, seed):
             if q and (nb, R) == (2, "B"):
                 continue
             for keys in (["Ham", "AA"], ["Ham"]):
-                out.append(Case(f"double_spin nb={nb} R={R} keys={'+'.join(keys)}", case_run, dict(spec=dict(kind="double", nb=nb, R=R, keys=keys, der=der, nk=1 if q else 2)), timeout=900))
+                out.append(Case(f"double_spin nb={nb} R={R} keys={'+'.join(keys)}", case_run, dict(spec=dict(kind="double", nb=nb, R=R, keys=keys, der=der, nk=1 if q else 2)), timeout=3000))
     for nb in ((1, 2) if q else (1, 2, 3)):
         for nspin, Rud in ((2, ("A", "B")), (2, ("C", "C")), (1, ("B",))):
             out.append(Case(f"noSOC nb={nb} nspin={nspin} R={'/'.join(Rud)}", case_run,
-                            dict(spec=dict(kind="soc", soc=False, nb=nb, nspin=nspin, Rud=Rud, keys=["Ham", "AA"], der=der, nk=1 if q else 2)), timeout=900))
+                            dict(spec=dict(kind="soc", soc=False, nb=nb, nspin=nspin, Rud=Rud, keys=["Ham", "AA"], der=der, nk=1 if q else 2)), timeout=3000))
     for nb in ((1, 2) if q else (1, 2, 3)):
         for nspin, Rud, R in ((2, ("C", "B"), "A"), (1, ("C",), "A"), (2, ("A", "A"), "B")):
             for st, sp in ((True, True), (False, False)):
@@ -554,14 +583,38 @@ def cases(tier, seed):
                     continue
                 out.append(Case(f"SOC nb={nb} nspin={nspin} R={R} up/down={'/'.join(Rud)} angles={'symbolic' if st else '0'}", case_run,
                                 dict(spec=dict(kind="soc", soc=True, nb=nb, nspin=nspin, Rud=Rud, R=R, keys=["Ham", "AA"] if nb < 3 else ["Ham"], der=der if nb < 3 else 1, nk=1,
-                                               sym_theta=st, sym_phi=sp)), timeout=1500))
+                                               sym_theta=st, sym_phi=sp)), timeout=3000))
     for nb, nspin, Rud, st in ((1, 2, ("A", "B"), True), (1, 1, ("C",), True), (2, 2, ("A", "A"), False)) + (() if q else ((2, 2, ("B", "C"), True), (2, 1, ("A",), True), (3, 2, ("A", "B"), False))):
         out.append(Case(f"set_soc_R nb={nb} nspin={nspin} up/down={'/'.join(Rud)} mesh=2x1x1 angles={'symbolic' if st else '0'} alpha_soc symbolic, 0, default", case_run,
-                        dict(spec=dict(kind="socR", nb=nb, nspin=nspin, Rud=Rud, sym_theta=st, sym_phi=st, nk=1)), timeout=1500))
+                        dict(spec=dict(kind="socR", nb=nb, nspin=nspin, Rud=Rud, sym_theta=st, sym_phi=st, nk=1)), timeout=3000))
     degs = [(1, 2, None, "degrees"), (1, 1, None, "deg"), (1, 2, (30.0, 180.0), "Degrees"), (1, 1, (75.0, 40.0), "degrees")] + ([] if q else [(2, 2, None, "degrees"), (2, 1, (120.0, -60.0), "d"), (2, 2, (30.0, 180.0), "degrees")])
     for nb, nspin, da, units in degs:
         out.append(Case(f"set_soc_axis units={units} nb={nb} nspin={nspin} angles={'symbolic (degrees)' if da is None else da}", case_run,
-                        dict(spec=dict(kind="deg", soc=True, nb=nb, nspin=nspin, Rud=("C", "B")[:nspin], R="A", keys=["Ham"], sym_theta=True, sym_phi=True, deg_angles=da, units=units, nk=1)), timeout=1500))
+                        dict(spec=dict(kind="deg", soc=True, nb=nb, nspin=nspin, Rud=("C", "B")[:nspin], R="A", keys=["Ham"], sym_theta=True, sym_phi=True, deg_angles=da, units=units, nk=1)), timeout=3000))
+    if not q:
+        many = ["Ham", "AA", "BB", "CC", "OO", "GG"]
+        for nb, R, keys in ((4, "F", ["Ham", "AA"]), (3, "F", many), (2, "E", many), (5, "B", ["Ham"]), (4, "A", ["Ham", "GG"]), (4, "F", many), (3, "F", ["Ham", "AA"]), (6, "A", ["Ham", "AA"])):
+            out.append(Case(f"double_spin nb={nb} R={R} keys={'+'.join(keys)}", case_run, dict(spec=dict(kind="double", nb=nb, R=R, keys=keys, der=2 if (nb <= 2 or (nb == 3 and len(keys) < 3)) else 1, nk=2 if nb < 4 else 1)), timeout=3000))
+        for nb, nspin, Rud, keys in ((4, 2, ("E", "F"), ["Ham", "AA"]), (3, 2, ("F", "C"), many), (2, 2, ("B", "F"), many), (4, 1, ("F",), ["Ham", "AA"]), (2, 1, ("E",), many), (3, 2, ("E", "F"), many), (4, 2, ("F", "E"), ["Ham", "AA"]), (5, 2, ("A", "B"), ["Ham"])):
+            out.append(Case(f"noSOC nb={nb} nspin={nspin} R={'/'.join(Rud)} keys={'+'.join(keys)}", case_run,
+                            dict(spec=dict(kind="soc", soc=False, nb=nb, nspin=nspin, Rud=Rud, keys=keys, der=2 if (nb <= 2 or (nb == 3 and len(keys) < 3)) else 1, nk=2 if nb < 4 else 1)), timeout=3000))
+        for nb, nspin, Rud, R, keys, st in ((3, 2, ("C", "B"), "B", ["Ham", "AA"], True), (3, 1, ("E",), "A", ["Ham", "AA"], True), (3, 2, ("A", "A"), "B", ["Ham"], True),
+                                            (2, 2, ("E", "F"), "B", many, True), (2, 1, ("F",), "E", many, True), (2, 2, ("F", "B"), "E", ["Ham", "AA"], True), (4, 2, ("A", "C"), "A", ["Ham"], False),
+                                            (1, 2, ("F", "E"), "F", many, True), (2, 2, ("C", "B"), "A", ["Ham"], True), (3, 2, ("E", "F"), "B", many, True), (3, 2, ("F", "E"), "F", ["Ham", "AA"], True),
+                                            (4, 2, ("B", "C"), "A", ["Ham", "AA"], True), (2, 2, ("F", "F"), "F", many, True), (3, 1, ("F",), "B", many, True)):
+            out.append(Case(f"SOC nb={nb} nspin={nspin} R={R} up/down={'/'.join(Rud)} keys={'+'.join(keys)} angles={'symbolic' if st else '0'} (deep)", case_run,
+                            dict(spec=dict(kind="soc", soc=True, nb=nb, nspin=nspin, Rud=Rud, R=R, keys=keys, der=2 if nb < 3 else 1, nk=2 if nb < 3 else 1, sym_theta=st, sym_phi=st)), timeout=3000))
+        for nb, nspin, Rud, mesh, g, irr, st in ((1, 2, ("A", "B"), [2, 2, 1], "perm", None, True), (2, 2, ("B", "C"), [2, 2, 1], "rot", None, True), (2, 1, ("E",), [2, 2, 1], "rot", None, True),
+                                                 (1, 2, ("A", "A"), [2, 2, 2], "perm", None, True), (2, 2, ("A", "B"), [2, 1, 2], "perm", ([0, 3], [2.0, 2.0]), True),
+                                                 (1, 1, ("C",), [2, 2, 1], None, ([0, 1, 2], [1.0, 2.0, 1.0]), True), (3, 2, ("A", "B"), [1, 2, 1], "rot", None, False),
+                                                 (2, 2, ("F", "E"), [1, 1, 1], "rot", None, True), (3, 1, ("B",), [2, 1, 1], "perm", None, True), (2, 2, ("A", "B"), [2, 2, 2], "rot", None, True),
+                                                 (3, 2, ("E", "B"), [2, 2, 1], "perm", ([0, 3], [2.0, 2.0]), True), (3, 1, ("F",), [2, 2, 1], "rot", None, True)):
+            out.append(Case(f"set_soc_R nb={nb} nspin={nspin} up/down={'/'.join(Rud)} mesh={'x'.join(map(str, mesh))} gauge={g or 'identity'} kptirr={irr} angles={'symbolic' if st else '0'}", case_run,
+                            dict(spec=dict(kind="socR", nb=nb, nspin=nspin, Rud=Rud, sym_theta=st, sym_phi=st, nk=1, mesh=mesh, gauge=g, kptirr=irr)), timeout=3000))
+        for units in ("radians", "rad", "r", "R", "Radians", "RAD", "deg", "d", "D", "DEG", "Degree", "degrees"):
+            for nspin in (1, 2):
+                out.append(Case(f"set_soc_axis units={units!r} nb=2 nspin={nspin} angles=symbolic (spelling sweep)", case_run,
+                                dict(spec=dict(kind="deg", soc=True, nb=2, nspin=nspin, Rud=("C", "B")[:nspin], R="A", keys=["Ham"], sym_theta=True, sym_phi=True, deg_angles=None, units=units, nk=1)), timeout=3000))
     for st, sp in ((True, True), (True, False), (False, True)):
         out.append(Case(f"pauli theta={'sym' if st else 0} phi={'sym' if sp else 0}", case_run,
                         dict(spec=dict(kind="pauli", soc=True, nb=1, nspin=1, Rud=("A",), R="A", keys=[], sym_theta=st, sym_phi=sp))))
